@@ -641,9 +641,11 @@ func (cf *mcRdpCfg) passes(m *mcRdp) bool {
 
 func mcRunRdpC14(e *mcEnv) {
 	r := e.rng
-	for ci, cf := range mcRdpCfgs(e) {
+	cfgs := mcRdpCfgs(e)
+	for ci, cf := range cfgs {
 		if ci == 0 {
 			mcRunRdpSweep(e, cf)
+			mcRunRdpOptionalElements(e, cfgs)
 		}
 		if ci == 0 || ci == 1 || ci == 6 || ci == 7 {
 			mcRunRdpDelims(e, cf)
@@ -988,6 +990,54 @@ func mcRunRdpInnerLengths(e *mcEnv, cfs []*mcRdpCfg) {
 	}
 }
 
+// every optional element of the payload (routing element, negotiation request, correlation info) complete,
+// truncated at every length 0..full-1 and over-long, with the correlation flag set and unset, the TPKT and
+// X.224 lengths always describing the real size
+func mcRunRdpOptionalElements(e *mcEnv, cfs []*mcRdpCfg) {
+	r := e.rng
+	id := mcRdpID(r)
+	corr := mcRdpCorr(id)
+	routings := [][]byte{nil, mcRdpCookie([]byte("user1")), mcRdpToken(mcRdpTokenCookie([4]byte{10, 0, 0, 10}, 3389)), []byte("lb-info-1\r\n")}
+	run := func(cls string, payload []byte) {
+		if len(payload) > 248 {
+			return
+		}
+		b := (&mcRdp{ver: 3, tc: 0xE0, routing: payload}).encode()
+		for _, ci := range []int{0, 4} {
+			mcMatchCase(e, cfs[ci].mt, b, true, "optional:"+cls)
+		}
+	}
+	for ri, rt := range routings {
+		for _, flags := range []byte{0, 8, 3, 11} {
+			neg := mcRdpNeg(flags, 3)
+			// the negotiation request cut at every length, complete, and followed by 1..2 more bytes
+			for l := 0; l <= len(neg); l++ {
+				run(fmt.Sprintf("r%d:neg-cut", ri), mcCat(rt, neg[:l]))
+			}
+			run(fmt.Sprintf("r%d:neg-long", ri), mcCat(rt, neg, []byte{0}))
+			run(fmt.Sprintf("r%d:neg-long", ri), mcCat(rt, neg, []byte{1, 2}))
+			// the correlation info after a complete negotiation request: cut at every length, complete, over-long
+			for l := 0; l <= len(corr); l++ {
+				run(fmt.Sprintf("r%d:corr-cut", ri), mcCat(rt, neg, corr[:l]))
+			}
+			run(fmt.Sprintf("r%d:corr-long", ri), mcCat(rt, neg, corr, []byte{0}))
+			run(fmt.Sprintf("r%d:corr-long", ri), mcCat(rt, neg, corr, []byte{0, 0}))
+			run(fmt.Sprintf("r%d:corr-twice", ri), mcCat(rt, neg, corr, corr))
+		}
+		// the routing element cut at every length (alone, and followed by the other elements) and over-long
+		for l := 0; l <= len(rt); l++ {
+			run(fmt.Sprintf("r%d:routing-cut", ri), rt[:l])
+			run(fmt.Sprintf("r%d:routing-cut+neg", ri), mcCat(rt[:l], mcRdpNeg(0, 3)))
+			run(fmt.Sprintf("r%d:routing-cut+neg+corr", ri), mcCat(rt[:l], mcRdpNeg(8, 3), corr))
+		}
+		if len(rt) > 0 {
+			run(fmt.Sprintf("r%d:routing-long", ri), mcCat(rt, []byte("\r\n")))
+			run(fmt.Sprintf("r%d:routing-long", ri), mcCat(rt, []byte{0x0D}))
+			run(fmt.Sprintf("r%d:routing-twice", ri), mcCat(rt, rt, mcRdpNeg(0, 3)))
+		}
+	}
+}
+
 // streams for the C04 / C06 runs: valid requests (with trailing data), mutations, CR/LF placements
 func mcRdpStreams(r *vRng, n int) [][]byte {
 	var out [][]byte
@@ -1120,6 +1170,7 @@ func TestVerifMCodec(t *testing.T) {
 				}
 			}
 			mcRunRdpInnerLengths(e, rd)
+			mcRunRdpOptionalElements(e, rd)
 			// rdp: every payload length with consistent headers, random payload
 			for l := 0; l <= 252; l++ {
 				pl := r.Bytes(l)
